@@ -28,6 +28,7 @@ func init() {
 			"number->string conversions are only compared on values where %.14g and shortest round-trip formatting agree; other cases are counted inconclusive",
 		},
 		CrashIsViolation: true,
+		HangSeconds:      120,
 		Run:              run,
 		Replay:           replay,
 	})
